@@ -16,7 +16,7 @@ EXPLANATION = (
     "abstract interpretation of typing.electrical_signal / optical_signal, each method analysed for both dynamic receiver classes. "
     "C01.1: both constructors store only freshly allocated arrays (np.array / astype / str2array results), and every operator, slice, "
     "copy and transform returns an object whose signal/noise alias no operand. C01.2: no method writes an operand's arrays or sample "
-    "fields. C01.3: results are constructed by the receiver's dynamic class. C01.4: both constructors are interpreted for every layout "
+    "fields. C01.3: results are constructed by the receiver's dynamic class, and a rebuilt optical object is given no n_pol other than the receiver's. C01.4: both constructors are interpreted for every layout "
     "class of the input (ndim 0/1/2, first-axis length 1/2, n_pol None/1/2, noise given or not; shapes equal or not): mismatching shapes "
     "never construct (ValueError), and the array stored for `noise` is the one stored for `signal` with signal replaced by noise. "
     "C01.5/6: in each of the four (self.noise, other.noise) None-cases the linear form of result.signal+result.noise equals the "
